@@ -12,6 +12,7 @@ kf = json.load(open(H + "/known_findings.json"))
 m = json.load(open(H + "/seeded/MATRIX.json"))
 prose = open(H + "/tools/design_asbuilt_prose.md").read()
 intro, falsealarms, seeded_intro = prose.split("\n<!--SPLIT-->\n")
+seeded_intro = seeded_intro.replace("@@N@@", str(len(m)))
 out = [intro, "\n### 11.2 Rules per property as evaluated on this tree\n\n"]
 for p in sorted(ev):
     c = ev[p]["coverage"]
